@@ -41,7 +41,7 @@ def combinator_pairs(ses, recs, n):
 def run():
     ses = Session("C09")
     rep = ses.rep
-    recs, stats, _ = progs.load()
+    recs, stats, _ = progs.load(routes=True)
     pairs = combinator_pairs(ses, recs, 400 if tier() == "quick" else 6000)
     anyrows = probe([{"op": "any", "pats": p, "mode": m} for p, m in pairs])
     asts = {r["text"]: (r["ast"] if r["ast_ok"] else None) for r in recs}
@@ -50,6 +50,14 @@ def run():
         if row.get("ok") and "smt" in row:
             targets.append(("any(%s;%s)" % (",".join(p), m), {"any": p, "mode": m}, row,
                             [asts[x] for x in p]))
+    # re-owned globs answer is_exhaustive from a rebuilt token tree but match with the retained
+    # program: a verdict that changes on the way is checked against that program
+    for r in recs:
+        for route in ("into_owned", "from_str", "clone"):
+            d = (r["row"].get("routes") or {}).get(route)
+            if d and "error" not in d and d.get("exh") == "Always" and r["row"]["exh"] != "Always" and "smt" in d:
+                targets.append(("%s (%s)" % (r["text"], route), {"glob": r["text"], "route": route}, d,
+                                [asts[r["text"]]]))
     tasks = []
     always = 0
     for i, (label, spec, row, _) in enumerate(targets):
@@ -81,9 +89,13 @@ def run():
         roles = {"always-exhaustive-unsound"}
         if "\n" in w[len(matched_anc[-1]):]:
             roles.add("newline-below-tree")
-        if matched_anc[-1] == "":
+        if matched_anc[-1] == "" and targets[i][1].get("route") is None:
             roles.add("exhaustive-matches-empty-path")
-        if any(R.exhaustive_heuristic_family(a) for a in targets[i][3]):
+        reowned = targets[i][1].get("route") is not None
+        if reowned:
+            # the verdict changed by re-owning the glob: not the known heuristic's doing
+            roles.add("verdict-changed-by-re-owning")
+        elif any(R.exhaustive_heuristic_family(a) for a in targets[i][3]):
             roles.add("not-plain-tree-tail")
         rep.candidate(roles, {"short": {"program": targets[i][0], "is_exhaustive": "Always",
                                         "matches": matched_anc[-1], "but_not_descendant": w}})
